@@ -83,7 +83,10 @@ static void seq_script(vrf::Rng& rng, long round)
             bool threw = false;
             auto value = Val<T>::make(id);
             (void)h->begin();
-            if (inject) vrf::fault_arm(1u << 1, k < 2 ? 2 : 1);  // push_*: 1st copy = by-value parameter, 2nd = node construction
+            // the copy that builds the element inside the node is the one to fail: emplace_*(lvalue) (push_* take their
+            // parameter by value - that copy is made by the caller - and move it into the node)
+            if (inject && k < 2) k += 2;
+            if (inject) vrf::fault_arm(1u << 1, 1);
             try {
                 if (k == 0) h->push_front(value);
                 else if (k == 1) h->push_back(value);
